@@ -81,10 +81,10 @@ SIG = {
     "buckets": [], "create_bucket": ["Z", "Z", "Z", "Z", "Z", "optZ", "Z"],
     "update_bucket": ["Z", "optZ", "optZ", "optZ", "optZ", "optZ"], "delete_bucket": ["Z"], "get_metadata": ["Z"],
     "insert_one": ["Z", "event"], "insert_many": ["Z", "events"], "replace_last": ["Z", "event"],
-    "delete": ["Z", "Z"], "replace": ["Z", "optZ", "event"], "get_event": ["Z", "Z"],
+    "delete": ["Z", "Z"], "_replace": ["Z", "optZ", "event"], "replace": ["Z", "optZ", "event"], "get_event": ["Z", "Z"],
     "get_events": ["Z", "Z", "opttime", "opttime"], "get_eventcount": ["Z", "opttime", "opttime"],
 }
-ORDER = ["get_metadata", "replace", "buckets", "create_bucket", "update_bucket", "delete_bucket", "insert_one",
+ORDER = ["get_metadata", "_replace", "replace", "buckets", "create_bucket", "update_bucket", "delete_bucket", "insert_one",
          "insert_many", "replace_last", "delete", "get_event", "get_events", "get_eventcount"]
 NOT_MODELLED = {"__init__", "commit", "conditional_commit"}
 UPDATE_COLS = ["type", "client", "hostname", "name", "datastr"]     # argument order of sql_update_bucket
